@@ -636,7 +636,10 @@ class Machine(object):
     def place(self, fr, p):
         k = p[0]
         if k == 'local':
-            return Ref(fr.cells[p[1]])
+            c = fr.cells[p[1]]
+            if isinstance(c.v, Ref) and c.v.meta == 'boxalias':
+                return Ref(c.v.cell, c.v.path)          # deref temporary: stands for the Box it was copied from
+            return Ref(c)
         if k == 'field':
             r = self.place(fr, p[1])
             ty = p[3]
@@ -1102,7 +1105,16 @@ class Machine(object):
                 if k == 'assign':
                     dest = self.place(fr, st[1])
                     dty = fr.fn.locals.get(st[1][1], '') if st[1][0] == 'local' else ''
-                    v = self.rvalue(fr, st[2], dty)
+                    if st[2][0] == 'use_alias':
+                        src = self.place(fr, st[2][1][1])
+                        sv = ctx.resolve(load(src, ctx.resolve))
+                        if st[1][0] == 'local' and dty.startswith('std::boxed::Box<') and isinstance(sv, Adt) and sv.ty == 'Box' and src.meta is None:
+                            # Box is modelled by value; copying the POINTER must not copy the boxed value
+                            fr.cells[st[1][1]].v = Ref(src.cell, src.path, 'boxalias')
+                            continue
+                        v = self.rvalue(fr, ('use', st[2][1]), dty)
+                    else:
+                        v = self.rvalue(fr, st[2], dty)
                     store(dest, v, ctx.resolve)
                 elif k == 'nop':
                     pass
